@@ -75,6 +75,9 @@ func (m *impl) Exec(op hx.Zs) []hx.Zs {
 	}
 	obs := m.w.Exec(op)
 	lastFam = m.fam
+	if len(op) > 0 && op[0] == 3 && len(obs) > 1 && len(obs[0]) == 2 {
+		shapes[fmt.Sprintf("overlaps-write-answered-%d", obs[0][1])]++
+	}
 	if len(op) > 3 && op[0] == 1 && op[1] == 1 && len(obs) > 0 && len(obs[0]) == 2 {
 		switch obs[0][1] {
 		case 0:
@@ -106,6 +109,14 @@ func canon(op hx.Zs, obs []hx.Zs) []hx.Zs {
 }
 
 func gen(r *hx.Rng, tier string, i int) []hx.Zs {
+	if i%25 == 3 {
+		// a remote write overlapped by a local update of other elements of a long list
+		ti := flagged[(i/25)%len(flagged)]
+		perType[string(ti.Function)]++
+		perFamily["3"]++
+		shapes["overlap-histories"]++
+		return ti.GenOverlapHistory(r, 8)
+	}
 	var ti *upd.TypeInfo
 	if i%8 != 7 {
 		ti = flagged[i%len(flagged)]
@@ -133,8 +144,8 @@ func main() {
 		Property: "C04",
 		Clauses: map[int64]string{1: "protected-element-modified-or-deleted", 2: "flag-altered",
 			3: "unaddressed-element-changed", 4: "acceptance-not-decided-by-addressed-elements", 5: "data-changed-by-rejected-write",
-			6: "accepted-write-not-fully-applied", 7: "malformed-observation", 98: "unparseable-observation", 99: "unparseable-operation"},
-		OpNames: map[int64]string{0: "init", 1: "update", 2: "snapshot"},
+			6: "accepted-write-not-fully-applied", 7: "malformed-observation", 8: "overlapping-update-lost", 98: "unparseable-observation", 99: "unparseable-operation"},
+		OpNames: map[int64]string{0: "init", 1: "update", 2: "snapshot", 3: "overlap"},
 		NewImpl: newImpl,
 		Gen:     gen,
 		Canon:   canon,
